@@ -97,9 +97,8 @@ def compare(ctx: Ctx, doc, y, z, case):
                 if len(parts) != len(notes):
                     v('chord-notes', f'{where}: chord {src!r} exported as {oz!r}: {len(parts)} notes instead of {len(notes)}')
                 else:
-                    u = e.obj.union_sigs()
                     for p, nt in zip(parts, notes):
-                        probs = GM.note_problems(p, nt, union=u)
+                        probs = GM.note_problems(p, nt, union=e.obj.union_for(nt))
                         if probs:
                             v('note-content', f'{where}: chord note exported as {p!r} (chord {src!r}): {"; ".join(probs)}')
                             break
